@@ -301,3 +301,10 @@ pub fn parse_args(args: &[String]) -> Args {
     }
     a
 }
+
+/// common entry of every driver binary: silence panic output, parse the command line
+pub fn start() -> Args {
+    silence_panics();
+    let argv: Vec<String> = std::env::args().collect();
+    parse_args(&argv[1..])
+}
